@@ -19,7 +19,7 @@ class C09(Prop):
             "inner_iterations counts PrintPreallocated calls. non-trivial = (tree, fmt, n) with |n-(L+1)| <= 8, counted in C "
             "(distinct by construction per tree: each n is visited once); distinct trees by hash")
     ASSUMPTIONS = ["writes beyond the canary zone in front of the buffer would only be seen by ASan on the heap placement"]
-    REQUIRED_CLASSES = ["formatted_nested", "string_with_escapes", "number_17_digits", "depth>=10"]
+    REQUIRED_CLASSES = ["formatted_nested", "string_with_escapes", "number_17_digits", "depth>=10", "empty_raw", "truthy_format_flag"]
 
     def budget(self, tier):
         return {"workers": 12, "examples": 700 if tier == "quick" else 20000}
@@ -27,7 +27,8 @@ class C09(Prop):
     def strategy(self, tier):
         numbers = st.one_of(gens.finite_doubles(), gens.top_doubles(), st.sampled_from([math.inf, math.nan]))
         strings = st.one_of(gens.byte_strings(12), gens.escapey_strings(), gens.invalid_utf8_strings())
-        leaves = gens.scalars_built(strings=strings, numbers=numbers)
+        leaves = st.one_of(gens.scalars_built(strings=strings, numbers=numbers), gens.scalars_built(strings=strings, numbers=numbers),
+                           st.sampled_from([b"", b"{}", b"[1, 2]", b"raw text", b"0"]).map(lambda r: ["R", r]))
         keys = st.one_of(gens.byte_strings(5), gens.ascii_keys(3), gens.escapey_strings(4))
         deep = st.tuples(st.sampled_from(["[", "{", "[{", "{[", "{{["]), st.sampled_from([8, 9, 10, 11, 12, 16, 17, 18, 24, 33]), leaves).map(
             lambda t: model.expand(["D", t[0], t[1], t[2]]))
@@ -50,9 +51,14 @@ class C09(Prop):
                 if n[0] == "S" and any(c < 0x20 or c in (0x22, 0x5C) for c in n[1]):
                     stats.cls("string_with_escapes")
                     break
+            if any(n[0] == "R" and n[1] == b"" for n in model.walk_jv(jv)):
+                stats.cls("empty_raw")
             total_nt = 0
-            for fmt in (0, 1):
+            # cJSON_bool is an int: every non-zero value means "formatted"
+            for fmt in (0, 1) + ((2, -1, 4, 256) if model.count_nodes(jv) % 4 == 0 else ()):
                 expect = lib.take_text(lib.cJSON_Print(tree) if fmt else lib.cJSON_PrintUnformatted(tree))
+                if fmt not in (0, 1):
+                    stats.cls("truthy_format_flag")
                 if expect is None:
                     raise Violation("allocating printer returned NULL", key="print-null")
                 if fmt == 0 and any(len(tok) >= 19 for tok in expect.replace(b",", b" ").replace(b"[", b" ").replace(b"]", b" ").split()
